@@ -21,6 +21,10 @@ Tasks
                 or all at the end in a drawn order.  Each call is judged against its own closed form with the backward options
                 documented for THAT call (its forward options overridden by what bck_options held when it was made), and the
                 caller's dicts must still hold what the caller put there.
+  dissipative   rk45 at 1e-10/1e-9 on contracting dynamics (y'=-ky, y'=-k(y-c), logistic) over 32..48 e-folding times with 9..13 output
+                times (L*dt <= 6 per segment), ts mostly NOT requiring grad: the adjoint integrands must be evaluated on the trajectory
+                stored by the forward pass at each requested time (y is expanding backwards by exp(L*T)); tolerance = adaptive tolerance
+                x number of segments / 4 x exp(L*dt_max).
   fixed_conv    fixed-step methods on coupled families (linear, rotation, logistic): the discrepancy to the exact
                 sensitivities must shrink by >= 2^(p-1) (euler: 1.5) when every interval is halved (fine grids, >= 16
                 steps), or be at the rounding floor.
@@ -53,6 +57,8 @@ ASSUMPTIONS = [
     "exactness of order-4 methods on chains (forward, adjoint and quadratures) is a theorem for first order and verified for second order "
     "(errors are either ~1e-14 or ~1e-2, nothing in between)",
     "adaptive tolerance: 2e3*(tol_f+tol_b)*(1+Y+G) with tol = atol+rtol*(Y+G), Y = max|y|, G = max|reference gradient| (L*T <= 2 on all families)",
+    "dissipative tolerance: 2e3*(tol_f+tol_b)*(1+Y+G)*exp(L*dt_max)*nseg/4 (a y-error at a requested time grows by at most exp(L*dt_max) until the next re-seeding; "
+    "measured headroom on the unchanged tree > 30x); rk45 only (rk23's first whole-interval step, see C07); first order only",
     "fixed_conv judges only the convergence rate, never the size of an O(h^p) discrepancy",
     "supplied parameter tensors are independent leaves or elementwise functions of their own leaf (AVOID_DERIVED_PARAMS): a tensor computed from "
     "another supplied tensor is over-counted by the non-recording backward (defect owned by C09)",
@@ -813,6 +819,148 @@ def switched_st(draw, tier="quick"):
 
 
 # ------------------------------------------------------------------------------------------------------------------
+# task dissipative: contracting dynamics over many e-folding times with many output times
+
+DISS_NEFF = {"decay": 1, "relax": 2, "logistic": 2}
+
+
+def diss_scaled(fam, eff, scale):
+    return [eff[0] * scale] + list(eff[1:])
+
+
+def diss_rhs(fam, d, y, p):
+    """contracting (in the direction d = +-1 of the time grid) elementwise dynamics"""
+    if fam == "decay":
+        return -d * p[0] * y
+    if fam == "relax":
+        return -d * p[0] * (y - p[1])
+    return d * p[0] * y * (1.0 - y / p[1])
+
+
+def diss_exact(fam, d, ts, y0, p):
+    tau = (d * (ts - ts[0])).unsqueeze(-1)          # >= 0
+    if fam == "decay":
+        return y0 * torch.exp(-p[0] * tau)
+    if fam == "relax":
+        return p[1] + (y0 - p[1]) * torch.exp(-p[0] * tau)
+    return p[1] / (1.0 + (p[1] / y0 - 1.0) * torch.exp(-p[0] * tau))
+
+
+def diss_grid(case):
+    incr, d, span, t0 = case["incr"], case["dir"], case["span"], case["t0"]
+    tot = float(sum(incr))
+    acc, tv = 0, [t0]
+    for k in incr:
+        acc += k
+        tv.append(t0 + d * span * acc / tot)
+    # contraction rate x longest segment (generator-controlled): what the backward integration of y may amplify between two re-seedings
+    LT = min(case["LT"], 6.0 * tot / max(incr))
+    return tv, LT, LT * max(incr) / tot
+
+
+def run_dissipative(case):
+    """y' = -k y, y' = -k (y - c), y' = r y (1 - y/K) (all contracting with rate ~ L along the direction of the grid) over a span
+    of L*T = 32..48 e-folding times with 9..13 output times, L*dt <= 6 per segment.  The sensitivities are those of the closed
+    form.  The forward problem is contracting, the adjoint is contracting backwards; y itself is expanding backwards, by
+    exp(L*dt) over one segment (accounted for in the tolerance) and by exp(L*T) ~ 1e7..1e13 over the whole span: the gradient
+    integrands must be evaluated on the trajectory the forward pass stored at the requested times."""
+    from xitorch.integrate import solve_ivp
+    torch.manual_seed(0)
+    fam = case["family"]
+    m = case["m"]
+    d = float(case["dir"])
+    spec = case["spec"]
+    form = case["form"]
+    tvals, LT, hmax = diss_grid(case)
+    g0 = gen.seeded(case["seed"])
+    u = 0.6 + 0.4 * torch.rand((m,), generator=g0, dtype=DT)
+    sgn = torch.where(torch.rand((m,), generator=g0, dtype=DT) < 0.5, -1.0, 1.0).to(DT)
+    mag = 0.5 + torch.rand((m,), generator=g0, dtype=DT)
+    rate = LT / case["span"] / abs(spec["scale"]) * u
+    if fam == "decay":
+        desired, y0_d = [rate], sgn * mag
+    elif fam == "relax":
+        c = 0.5 + torch.rand((m,), generator=g0, dtype=DT)
+        desired, y0_d = [rate, c], c + sgn * mag
+    else:
+        K = 1.0 + torch.rand((m,), generator=g0, dtype=DT)
+        desired, y0_d = [rate, K], K * (0.3 + 1.4 * torch.rand((m,), generator=g0, dtype=DT))
+    nparts = min(2, m) if form == "tuple" else 1
+    sizes = R.split_sizes(m, nparts)
+
+    def core(xs, eff, scale):
+        t, y = xs
+        p = diss_scaled(fam, eff, scale)
+        if form == "tensor":
+            return diss_rhs(fam, d, y, p)
+        out = diss_rhs(fam, d, torch.cat(list(y), dim=-1), p)
+        return tuple(torch.split(out, sizes, dim=-1))
+    su = Setup(core, desired, spec, case["req"])
+    ts = torch.tensor(tvals, dtype=DT, requires_grad=bool(case["tsreq"]))
+    if form == "tensor":
+        y0 = y0_d.clone().requires_grad_(bool(case["y0req"]))
+        y0_leaves, y0cat = [y0], y0
+    else:
+        y0_leaves = [p_.clone().requires_grad_(bool(case["y0req"])) for p_ in torch.split(y0_d, sizes, dim=-1)]
+        y0 = tuple(y0_leaves)
+        y0cat = torch.cat(y0_leaves, dim=-1)
+    atol, rtol = 10.0 ** (-case["atol_e"]), 10.0 ** (-case["rtol_e"])
+    atol_b, rtol_b = atol, rtol
+    kwargs = {"method": case["method"], "atol": atol, "rtol": rtol}
+    if case["btol_e"]:
+        atol_b, rtol_b = 10.0 ** (-case["btol_e"][0]), 10.0 ** (-case["btol_e"][1])
+        kwargs["bck_options"] = {"atol": atol_b, "rtol": rtol_b}
+    labels = ["task=dissipative", "family=" + fam, "fwd=" + case["method"], "bck=" + ("tol" if case["btol_e"] else "same"), "form=" + form,
+              "LT=%g" % LT, "nt=%d" % len(tvals), "dir=" + ("inc" if d > 0 else "dec"), "ragged=%s" % (len(set(case["incr"])) > 1),
+              "span=%g" % case["span"], "t0=%g" % case["t0"]] + common_labels(case, spec)
+    leaves_g = [l for l in su.leaves if l.requires_grad]
+    wrt = leaves_g + (y0_leaves if case["y0req"] else []) + ([ts] if case["tsreq"] else [])
+    names = ["leaf[%d]" % i for i, l in enumerate(su.leaves) if l.requires_grad] + \
+            (["y0[%d]" % i for i in range(len(y0_leaves))] if case["y0req"] else []) + (["ts"] if case["tsreq"] else [])
+    if not wrt:
+        return discard("nothing_to_differentiate", labels)
+    res = xt_call(solve_ivp, su.fcn, ts, y0, params=su.params, _where="forward", **kwargs)
+    exact = diss_exact(fam, d, ts, y0cat, diss_scaled(fam, su.eff(), su.scale))
+    if form == "tensor":
+        got_outs, ref_outs = [res], [exact]
+    else:
+        got_outs, ref_outs = list(res), list(torch.split(exact, sizes, dim=-1))
+    Y = float(exact.detach().abs().max())
+    amp = float(torch.exp(torch.tensor(hmax, dtype=DT)))
+    nseg = len(tvals) - 1
+
+    def tol_fn(order, G, s1, s2):
+        # the tolerance of task adaptive (one segment, L*T <= 2) x the number of segments x the growth of a y-error over one segment
+        Z = 1.0 + Y + G
+        return 2e3 * ((atol + rtol * Z) + (atol_b + rtol_b * Z)) * Z * amp * nseg / 4.0
+    value_tol = 20.0 * 400 * (atol + rtol * Y) + 1e-12 * (1 + Y)
+    gW = torch.Generator().manual_seed(case["seed"] ^ 0x2468ace)
+    v, nonzero = compare(case, labels, got_outs, ref_outs, wrt, names, [1.0] * len(wrt), su.info["unused"], gW, tol_fn, value_tol)
+    if v is not None:
+        return v
+    return ok(labels, nontrivial=nonzero and (bool(leaves_g) or case["tsreq"]))
+
+
+@st.composite
+def dissipative_st(draw, tier="quick"):
+    # logistic: y integrated backwards without re-seeding escapes to infinity in finite time (a broken tree would hang, not fail): thorough tier only
+    fam = draw(st.sampled_from(["relax", "relax", "decay"] + (["logistic"] if tier == "thorough" else [])))
+    neff = DISS_NEFF[fam]
+    spec = draw(spec_st(neff, KINDS_QUICK, scales=(1.0, 0.5, 2.0)))
+    nseg = draw(st.integers(8, 12))
+    ragged = draw(st.booleans())
+    incr = [draw(st.integers(2, 3)) if ragged else 2 for _ in range(nseg)]
+    return {"family": fam, "method": "rk45", "m": draw(st.integers(1, 3)), "form": draw(st.sampled_from(["tensor", "tensor", "tuple"])),
+            "incr": incr, "dir": draw(st.sampled_from([1, 1, -1])), "span": draw(st.sampled_from([1.0, 3.0, 30.0, 0.1])),
+            "t0": draw(st.sampled_from([0.0, 0.0, -3.0, 2.5])), "LT": draw(st.sampled_from([32.0, 40.0, 48.0])),
+            "atol_e": 10, "rtol_e": 9, "btol_e": draw(st.sampled_from([None, None, [9, 8], [11, 10]])),
+            "spec": spec, "req": [draw(st.sampled_from([True, True, True, False])) for _ in range(neff)],
+            "y0req": draw(st.booleans()), "tsreq": draw(st.sampled_from([False, False, True])),
+            "cot": draw(st.sampled_from(["dense", "dense", "dense", "last", "one"])), "cotk": draw(st.integers(0, 12)),
+            "order": 1, "seed": draw(st.integers(0, 2 ** 31 - 1))}
+
+
+# ------------------------------------------------------------------------------------------------------------------
 # task shared_options: histories of solve_ivp calls that are given the SAME caller-held option dictionaries
 
 FIXED4 = ("rk4", "rk38")
@@ -972,4 +1120,5 @@ def tasks(tier):
         Task("fixed_conv", strategy=fixed_conv_st(tier), run=run_fixed_conv, examples={"quick": 180, "thorough": 1500}),
         Task("switched", strategy=switched_st(tier), run=run_switched, examples={"quick": 200, "thorough": 2000}),
         Task("shared_options", strategy=shared_options_st(tier), run=run_shared_options, examples={"quick": 160, "thorough": 1600}),
+        Task("dissipative", strategy=dissipative_st(tier), run=run_dissipative, examples={"quick": 120, "thorough": 1000}),
     ]
